@@ -224,8 +224,11 @@ struct C03Policy
         if (v.is_1d_traversable())
         {
             ++ctx.witness["traversable_true"];
-            for (long y = 0; y + 1 < h; ++y)
-                if (Id::it(base, v.row_begin(y) + w) != P(0, y + 1)) fail("is_1d_traversable-lies", vh::S() << "row " << y);
+            // the last row too: past its end lies where the raw model puts row h (that is what end() of a 1-D traversable view relies on);
+            // for a one-row view this is the only row there is
+            for (long y = 0; y < h; ++y)
+                if (Id::it(base, v.row_begin(y) + w) != P(0, y + 1)) fail("is_1d_traversable-lies", vh::S() << "row " << y << (y + 1 == h ? " (last row)" : ""));
+            if (h == 1 && w > 0) ++ctx.witness["traversable_true_one_row"];
         }
         else ++ctx.witness["traversable_false"];
         if (m.a < 0 || m.d < 0 || m.b < 0 || m.c < 0) ++ctx.witness["negative_step_states"];
